@@ -3,7 +3,380 @@ import SodiumModel.Proofs.Utils
 /-
   Helper lemmas for C01 / C02 (AEAD constructions).
 -/
-open Sodium Sodium.Model
+open Sodium Sodium.Model Sodium.Model.Aead
 namespace Sodium
+
+/-! ### xorBytes algebra -/
+
+@[simp] theorem zeros_length (n : Nat) : (zeros n).length = n := by simp [zeros]
+
+@[simp] theorem xorBytes_nil_left (b : Bytes) : xorBytes [] b = [] := by cases b <;> rfl
+@[simp] theorem xorBytes_nil_right (a : Bytes) : xorBytes a [] = [] := by cases a <;> rfl
+@[simp] theorem xorBytes_cons (x y : UInt8) (xs ys : Bytes) :
+    xorBytes (x :: xs) (y :: ys) = (x ^^^ y) :: xorBytes xs ys := rfl
+
+theorem aead_xorBytes_length : ∀ a b : Bytes, (xorBytes a b).length = min a.length b.length
+  | [], b => by simp
+  | a :: as, [] => by simp
+  | a :: as, b :: bs => by simp [aead_xorBytes_length as bs]
+
+theorem uint8_xor_cancel (a b : UInt8) : a ^^^ b ^^^ b = a := by
+  rw [UInt8.xor_assoc, UInt8.xor_self, UInt8.xor_zero]
+
+theorem aead_xorBytes_cancel : ∀ m k : Bytes, m.length ≤ k.length → xorBytes (xorBytes m k) k = m
+  | [], k, _ => by simp
+  | m :: ms, [], h => by simp at h
+  | m :: ms, k :: ks, h => by
+    simp only [xorBytes_cons, uint8_xor_cancel]
+    rw [aead_xorBytes_cancel ms ks (by simpa using h)]
+
+theorem aead_xorBytes_append : ∀ a b c d : Bytes, a.length = c.length →
+    xorBytes (a ++ b) (c ++ d) = xorBytes a c ++ xorBytes b d
+  | [], b, [], d, _ => by simp
+  | [], b, c :: cs, d, h => by simp at h
+  | a :: as, b, [], d, h => by simp at h
+  | a :: as, b, c :: cs, d, h => by
+    simp only [List.cons_append, xorBytes_cons]
+    rw [aead_xorBytes_append as b cs d (by simpa using h)]
+
+theorem xorBytes_take : ∀ (n : Nat) (a b : Bytes), (xorBytes a b).take n = xorBytes (a.take n) (b.take n)
+  | 0, a, b => by simp
+  | n + 1, [], b => by simp
+  | n + 1, a :: as, [] => by simp
+  | n + 1, a :: as, b :: bs => by simp [xorBytes_take n as bs]
+
+theorem aead_xorBytes_drop : ∀ (n : Nat) (a b : Bytes), (xorBytes a b).drop n = xorBytes (a.drop n) (b.drop n)
+  | 0, a, b => by simp
+  | n + 1, [], b => by simp
+  | n + 1, a :: as, [] => by simp
+  | n + 1, a :: as, b :: bs => by simp [aead_xorBytes_drop n as bs]
+
+theorem xorBytes_zeros : ∀ (n : Nat) (k : Bytes), xorBytes (zeros n) k = k.take n
+  | 0, k => by simp [zeros]
+  | n + 1, [] => by simp
+  | n + 1, k :: ks => by
+    have := xorBytes_zeros n ks
+    simp only [zeros] at this
+    simp [zeros, List.replicate_succ, this]
+
+theorem aead_xorBytes_take_right : ∀ (n : Nat) (a b : Bytes), a.length ≤ n → xorBytes a (b.take n) = xorBytes a b
+  | _, [], b, _ => by simp
+  | 0, a :: as, b, h => by simp at h
+  | n + 1, a :: as, [], _ => by simp
+  | n + 1, a :: as, b :: bs, h => by
+    simp only [List.take_succ_cons, xorBytes_cons]
+    rw [aead_xorBytes_take_right n as bs (by simpa using h)]
+
+
+/-! ### C arithmetic and the tag comparison -/
+
+/-- `(0x10 - len) & 0xf` in 64-bit arithmetic is the RFC 8439 pad length (for every `len`) -/
+theorem pad16len_eq (len : Nat) : pad16len len = (16 - len % 16) % 16 := by
+  unfold pad16len
+  rw [UInt64.toNat_and, UInt64.toNat_sub, UInt64.toNat_ofNat']
+  have : (0xf : UInt64).toNat = 2 ^ 4 - 1 := rfl
+  rw [this, Nat.and_two_pow_sub_one_eq_mod]
+  have : (0x10 : UInt64).toNat = 16 := rfl
+  rw [this]
+  omega
+
+/-- `crypto_verify_16` (SSE2 body) is exact equality -/
+theorem verify16 (x y : Bytes) (hx : x.length = 16) (hy : y.length = 16) :
+    verify_n_sse2 1 x y = if x = y then 0 else -1 :=
+  verify_n_sse2_spec 1 (by decide) x y hx hy
+
+theorem verify16_self (x : Bytes) (hx : x.length = 16) : verify_n_sse2 1 x x = 0 := by
+  rw [verify16 x x hx hx, if_pos rfl]
+
+/-! ### keystream laws -/
+
+structure StreamLaws (P : Prims) : Prop where
+  ks_len : ∀ k n ic len, (P.ks k n ic len).length = len
+  ks_offset : ∀ k n ic len, P.ks k n ic len = (P.ks k n 0 (64 * ic + len)).drop (64 * ic)
+  ks_prefix : ∀ k n a b, (P.ks k n 0 (a + b)).take a = P.ks k n 0 a
+
+theorem StreamLaws.ks_take {P : Prims} (h : StreamLaws P) (k n : Bytes) (a L : Nat) (hle : a ≤ L) :
+    (P.ks k n 0 L).take a = P.ks k n 0 a := by
+  obtain ⟨b, rfl⟩ : ∃ b, L = a + b := ⟨L - a, by omega⟩
+  exact h.ks_prefix k n a b
+
+/-! ### ChaCha20-Poly1305 AEAD composition -/
+
+theorem encryptDetached_fst_length (P : Prims) (hl : ∀ k n ic len, (P.ks k n ic len).length = len)
+    (f : Flavor) (m ad n k : Bytes) : (encryptDetached P f m ad n k).1.length = m.length := by
+  simp [encryptDetached, aead_xorBytes_length, hl]
+
+theorem encrypt_length (P : Prims) (hl : ∀ k n ic len, (P.ks k n ic len).length = len)
+    (hm : ∀ k d, (P.mac k d).length = 16)
+    (f : Flavor) (m ad n k : Bytes) : (encrypt P f m ad n k).length = m.length + 16 := by
+  simp [encrypt, encryptDetached, aead_xorBytes_length, hl, hm]
+
+theorem decryptDetached_ok (P : Prims) (hm : ∀ k d, (P.mac k d).length = 16)
+    (f : Flavor) (w : Bool) (c ad n k : Bytes) :
+    decryptDetached P f w c (P.mac ((P.ks k n 0 64).take 32) (macData f ad c)) ad n k =
+      ⟨0, c.length, if w then some (xorBytes c (P.ks k n 1 c.length)) else none⟩ := by
+  unfold decryptDetached
+  simp only [verify16_self _ (hm _ _)]
+  cases w <;> simp
+
+theorem roundtrip_detached (P : Prims) (hl : ∀ k n ic len, (P.ks k n ic len).length = len)
+    (hm : ∀ k d, (P.mac k d).length = 16) (f : Flavor) (m ad n k : Bytes) :
+    decryptDetached P f true (encryptDetached P f m ad n k).1 (encryptDetached P f m ad n k).2 ad n k
+      = ⟨0, m.length, some m⟩ := by
+  have hc := encryptDetached_fst_length P hl f m ad n k
+  have : (encryptDetached P f m ad n k).2 =
+      P.mac ((P.ks k n 0 64).take 32) (macData f ad (encryptDetached P f m ad n k).1) := rfl
+  rw [this, decryptDetached_ok P hm, hc]
+  simp only [encryptDetached, if_true]
+  rw [aead_xorBytes_cancel _ _ (by rw [hl]; exact Nat.le_refl _)]
+
+theorem decrypt_combined (P : Prims) (f : Flavor) (w : Bool) (c mac ad n k : Bytes) (hmac : mac.length = 16) :
+    decrypt P f w (c ++ mac) ad n k = decryptDetached P f w c mac ad n k := by
+  unfold decrypt
+  have h1 : (c ++ mac).length - 16 = c.length := by simp [hmac]
+  rw [if_neg (by simp [hmac]), h1, List.take_left, List.drop_left]
+
+
+/-! ### secretbox `block0` staging -/
+
+theorem sb_block0_key {P : Prims} (h : StreamLaws P) (sk nn x : Bytes) :
+    (xorBytes (zeros 32 ++ x) (P.ks sk nn 0 64)).take 32 = P.ks sk nn 0 32 := by
+  rw [xorBytes_take, List.take_left' (zeros_length 32), xorBytes_zeros, List.take_take,
+    h.ks_take _ _ _ _ (by omega)]
+  rfl
+
+theorem sb_block0_body (P : Prims) (sk nn a z : Bytes) :
+    ((xorBytes (zeros 32 ++ a ++ z) (P.ks sk nn 0 64)).drop 32).take a.length
+      = xorBytes a (((P.ks sk nn 0 64).drop 32).take a.length) := by
+  rw [List.append_assoc, aead_xorBytes_drop, List.drop_left' (zeros_length 32), xorBytes_take,
+    List.take_left' rfl]
+
+theorem sb_body {P : Prims} (h : StreamLaws P) (sk nn m : Bytes) :
+    ((xorBytes (zeros 32 ++ m.take (min m.length 32) ++ zeros (32 - min m.length 32)) (P.ks sk nn 0 64)).drop 32).take (min m.length 32)
+      ++ (if m.length > min m.length 32 then
+            xorBytes (m.drop (min m.length 32)) (P.ks sk nn 1 (m.length - min m.length 32)) else [])
+    = xorBytes m ((P.ks sk nn 0 (32 + m.length)).drop 32) := by
+  have hA : (m.take (min m.length 32)).length = min m.length 32 := by simp
+  have hb := sb_block0_body P sk nn (m.take (min m.length 32)) (zeros (32 - min m.length 32))
+  rw [hA] at hb
+  rw [hb]
+  by_cases hle : m.length ≤ 32
+  · have hmin : min m.length 32 = m.length := by omega
+    rw [hmin, if_neg (by omega), List.append_nil, List.take_length,
+      ← h.ks_take sk nn (32 + m.length) 64 (by omega), List.drop_take]
+    simp
+  · have hmin : min m.length 32 = 32 := by omega
+    rw [hmin, if_pos (by omega), h.ks_offset _ _ 1, aead_xorBytes_take_right _ _ _ (by simp; omega)]
+    have e : 64 * 1 + (m.length - 32) = 32 + m.length := by omega
+    rw [e, ← h.ks_take sk nn 64 (32 + m.length) (by omega), List.drop_take]
+    have hX : (P.ks sk nn 0 (32 + m.length)).length = 32 + m.length := h.ks_len ..
+    generalize P.ks sk nn 0 (32 + m.length) = X at hX ⊢
+    conv => rhs; rw [← List.take_append_drop 32 m, ← List.take_append_drop 32 (List.drop 32 X)]
+    rw [aead_xorBytes_append _ _ _ _ (by simp; omega), List.drop_drop]
+
+theorem secretboxDetached_spec {P : Prims} (h : StreamLaws P) (m n k : Bytes) :
+    secretboxDetached P m n k =
+      (xorBytes m ((P.ks (sbSubkey P n k) (sbNonce n) 0 (32 + m.length)).drop 32),
+       P.mac ((P.ks (sbSubkey P n k) (sbNonce n) 0 (32 + m.length)).take 32)
+         (xorBytes m ((P.ks (sbSubkey P n k) (sbNonce n) 0 (32 + m.length)).drop 32))) := by
+  simp only [secretboxDetached]
+  rw [sb_body h, List.append_assoc, sb_block0_key h, h.ks_take _ _ _ _ (by omega)]
+
+theorem secretboxDetached_fst_length {P : Prims} (h : StreamLaws P) (m n k : Bytes) :
+    (secretboxDetached P m n k).1.length = m.length := by
+  rw [secretboxDetached_spec h]
+  simp [aead_xorBytes_length, h.ks_len]
+
+/-- opening with the right tag: the staged computation is the same XOR -/
+theorem secretboxOpenDetached_ok {P : Prims} (h : StreamLaws P) (hm : ∀ k d, (P.mac k d).length = 16)
+    (c n k : Bytes) :
+    secretboxOpenDetached P true c (P.mac (P.ks (sbSubkey P n k) (sbNonce n) 0 32) c) n k =
+      ⟨0, c.length, some (xorBytes c ((P.ks (sbSubkey P n k) (sbNonce n) 0 (32 + c.length)).drop 32))⟩ := by
+  simp only [secretboxOpenDetached]
+  rw [sb_body h, List.append_assoc, sb_block0_key h, verify16_self _ (hm _ _)]
+  simp
+
+theorem secretbox_roundtrip_detached {P : Prims} (h : StreamLaws P) (hm : ∀ k d, (P.mac k d).length = 16)
+    (m n k : Bytes) :
+    secretboxOpenDetached P true (secretboxDetached P m n k).1 (secretboxDetached P m n k).2 n k
+      = ⟨0, m.length, some m⟩ := by
+  have hl := secretboxDetached_fst_length h m n k
+  have h2 : (secretboxDetached P m n k).2 =
+      P.mac (P.ks (sbSubkey P n k) (sbNonce n) 0 32) (secretboxDetached P m n k).1 := by
+    rw [secretboxDetached_spec h, h.ks_take _ _ _ _ (by omega)]
+  rw [h2, secretboxOpenDetached_ok h hm, hl]
+  rw [secretboxDetached_spec h]
+  simp only
+  rw [aead_xorBytes_cancel _ _ (by simp [h.ks_len])]
+
+theorem secretboxOpenEasy_combined (P : Prims) (w : Bool) (c mac n k : Bytes) (hmac : mac.length = 16) :
+    secretboxOpenEasy P w (mac ++ c) n k = secretboxOpenDetached P w c mac n k := by
+  unfold secretboxOpenEasy
+  rw [if_neg (by simp [hmac]), ← hmac, List.take_left, List.drop_left]
+
+theorem secretboxDetached_snd_length {P : Prims} (hm : ∀ k d, (P.mac k d).length = 16) (m n k : Bytes) :
+    (secretboxDetached P m n k).2.length = 16 := by
+  simp only [secretboxDetached]; exact hm _ _
+
+theorem naclBox_spec {P : Prims} (h : StreamLaws P) (m n k : Bytes) :
+    naclBox P (zeros 32 ++ m) n k = .ok (zeros 16 ++ secretboxEasy P m n k) := by
+  have hlen : (zeros 32 ++ m).length = 32 + m.length := by simp
+  simp only [naclBox, secretboxEasy]
+  rw [secretboxDetached_spec h, if_neg (by omega), hlen]
+  have hX : (P.ks (sbSubkey P n k) (sbNonce n) 0 (32 + m.length)).length = 32 + m.length := h.ks_len ..
+  generalize P.ks (sbSubkey P n k) (sbNonce n) 0 (32 + m.length) = X at hX ⊢
+  rw [xorBytes_take, aead_xorBytes_drop, List.take_left' (zeros_length 32), List.drop_left' (zeros_length 32),
+    xorBytes_zeros, List.take_take]
+  simp
+
+theorem naclOpen_spec {P : Prims} (h : StreamLaws P) (hm : ∀ k d, (P.mac k d).length = 16) (m n k : Bytes) :
+    naclOpen P (zeros 16 ++ secretboxEasy P m n k) n k = .ok (zeros 32 ++ m) := by
+  have hl := secretboxDetached_fst_length h m n k
+  have hl2 := secretboxDetached_snd_length hm m n k
+  have h2 : (secretboxDetached P m n k).2 =
+      P.mac (P.ks (sbSubkey P n k) (sbNonce n) 0 32) (secretboxDetached P m n k).1 := by
+    rw [secretboxDetached_spec h, h.ks_take _ _ _ _ (by omega)]
+  have hlen : (zeros 16 ++ secretboxEasy P m n k).length = 32 + m.length := by
+    simp [secretboxEasy, hl, hl2]; omega
+  have hd32 : (zeros 16 ++ secretboxEasy P m n k).drop 32 = (secretboxDetached P m n k).1 := by
+    simp only [secretboxEasy]
+    rw [← List.append_assoc, List.drop_left' (by simp [hl2])]
+  have hd16 : ((zeros 16 ++ secretboxEasy P m n k).drop 16).take 16 = (secretboxDetached P m n k).2 := by
+    simp only [secretboxEasy]
+    rw [List.drop_left' (zeros_length 16), List.take_left' hl2]
+  simp only [naclOpen]
+  rw [if_neg (by omega), hd16, hd32, ← h2, verify16_self _ hl2, aead_xorBytes_drop, hd32, hlen]
+  rw [secretboxDetached_spec h]
+  simp only
+  rw [aead_xorBytes_cancel _ _ (by simp [h.ks_len])]
+  simp
+
+
+/-! ### C02: MAC-data injectivity and the decision logic -/
+
+theorem aead_toLE8_inj (a b : Nat) (ha : a < 2 ^ 64) (hb : b < 2 ^ 64) (h : toLE 8 a = toLE 8 b) : a = b := by
+  have := congrArg le h
+  rw [le_toLE, le_toLE] at this
+  have e : (256 : Nat) ^ 8 = 2 ^ 64 := by decide
+  rw [e, Nat.mod_eq_of_lt ha, Nat.mod_eq_of_lt hb] at this
+  exact this
+
+theorem macData_orig_inj (ad ad' c c' : Bytes)
+    (hc : c.length < 2 ^ 64) (hc' : c'.length < 2 ^ 64)
+    (h : macData .orig ad c = macData .orig ad' c') : ad = ad' ∧ c = c' := by
+  simp only [macData] at h
+  obtain ⟨h1, h2⟩ := List.append_inj' h (by simp [toLE_length])
+  have hcl := aead_toLE8_inj _ _ hc hc' h2
+  obtain ⟨h3, h4⟩ := List.append_inj' h1 hcl
+  obtain ⟨h5, _⟩ := List.append_inj' h3 (by simp [toLE_length])
+  exact ⟨h5, h4⟩
+
+theorem macData_ietf_inj (ad ad' c c' : Bytes)
+    (ha : ad.length < 2 ^ 64) (ha' : ad'.length < 2 ^ 64) (hc : c.length < 2 ^ 64) (hc' : c'.length < 2 ^ 64)
+    (h : macData .ietf ad c = macData .ietf ad' c') : ad = ad' ∧ c = c' := by
+  simp only [macData] at h
+  obtain ⟨h1, h2⟩ := List.append_inj' h (by simp [toLE_length])
+  have hcl := aead_toLE8_inj _ _ hc hc' h2
+  obtain ⟨h3, h4⟩ := List.append_inj' h1 (by simp [toLE_length])
+  have hal := aead_toLE8_inj _ _ ha ha' h4
+  obtain ⟨h5, _⟩ := List.append_inj' h3 (by simp [hcl])
+  obtain ⟨h6, h7⟩ := List.append_inj' h5 hcl
+  obtain ⟨h8, _⟩ := List.append_inj' h6 (by simp [hal])
+  exact ⟨h8, h7⟩
+
+/-- the tail of `decrypt_detached` after the tag comparison -/
+def decFinish (ret : Int32) (w : Bool) (c ks : Bytes) : DecResult :=
+  if !w then ⟨ret, if ret = 0 then c.length else 0, none⟩
+  else if ret ≠ 0 then ⟨-1, 0, some (zeros c.length)⟩
+  else ⟨0, c.length, some (xorBytes c ks)⟩
+
+theorem decryptDetached_eq (P : Prims) (f : Flavor) (w : Bool) (c mac ad n k : Bytes) :
+    decryptDetached P f w c mac ad n k =
+      decFinish (verify_n_sse2 1 (P.mac ((P.ks k n 0 64).take 32) (macData f ad c)) mac) w c
+        (P.ks k n 1 c.length) := rfl
+
+theorem decFinish_rc_zero (w : Bool) (c ks : Bytes) : (decFinish 0 w c ks).rc = 0 := by
+  cases w <;> simp [decFinish]
+
+theorem decFinish_rc_neg (w : Bool) (c ks : Bytes) : (decFinish (-1) w c ks).rc = -1 := by
+  cases w <;> simp [decFinish]
+
+theorem decFinish_failure (ret : Int32) (w : Bool) (c ks : Bytes) (h : (decFinish ret w c ks).rc ≠ 0) :
+    (decFinish ret w c ks).mlen = 0 ∧
+    ((decFinish ret w c ks).mbuf = none ∨ (decFinish ret w c ks).mbuf = some (zeros c.length)) := by
+  by_cases hr : ret = 0
+  · subst hr; exact absurd (decFinish_rc_zero w c ks) h
+  · cases w <;> simp [decFinish, hr]
+
+theorem decryptDetached_rc (P : Prims) (hm : ∀ k d, (P.mac k d).length = 16)
+    (f : Flavor) (w : Bool) (c mac ad n k : Bytes) (hmac : mac.length = 16) :
+    (decryptDetached P f w c mac ad n k).rc =
+      if mac = P.mac ((P.ks k n 0 64).take 32) (macData f ad c) then 0 else -1 := by
+  rw [decryptDetached_eq, verify16 _ _ (hm _ _) hmac]
+  by_cases e : mac = P.mac ((P.ks k n 0 64).take 32) (macData f ad c)
+  · rw [if_pos e, if_pos e.symm, decFinish_rc_zero]
+  · rw [if_neg e, if_neg (fun h => e h.symm), decFinish_rc_neg]
+
+theorem decryptDetached_failure (P : Prims) (f : Flavor) (w : Bool) (c mac ad n k : Bytes)
+    (h : (decryptDetached P f w c mac ad n k).rc ≠ 0) :
+    (decryptDetached P f w c mac ad n k).mlen = 0 ∧
+    ((decryptDetached P f w c mac ad n k).mbuf = none ∨ (decryptDetached P f w c mac ad n k).mbuf = some (zeros c.length)) := by
+  rw [decryptDetached_eq] at h ⊢
+  exact decFinish_failure _ _ _ _ h
+
+theorem decryptDetached_verify_only (P : Prims) (f : Flavor) (c mac ad n k : Bytes) :
+    (decryptDetached P f false c mac ad n k).mbuf = none := by
+  simp [decryptDetached]
+
+/-- the tail of `crypto_secretbox_open_detached` after the tag comparison -/
+def sbFinish (ret : Int32) (w : Bool) (c out : Bytes) : DecResult :=
+  if ret ≠ 0 then ⟨-1, 0, none⟩
+  else if !w then ⟨0, c.length, none⟩
+  else ⟨0, c.length, some out⟩
+
+theorem secretboxOpenDetached_failure (P : Prims) (w : Bool) (c mac n k : Bytes)
+    (h : (secretboxOpenDetached P w c mac n k).rc ≠ 0) :
+    secretboxOpenDetached P w c mac n k = ⟨-1, 0, none⟩ := by
+  have e : ∃ ret out, secretboxOpenDetached P w c mac n k = sbFinish ret w c out := ⟨_, _, rfl⟩
+  obtain ⟨ret, out, e⟩ := e
+  rw [e] at h ⊢
+  by_cases hr : ret = 0
+  · subst hr; cases w <;> simp [sbFinish] at h
+  · simp [sbFinish, hr]
+
+/-! ### a toy instance of the primitives (non-vacuity of the hypotheses on `Prims`) -/
+
+/-- byte `j` of the toy keystream: depends on key, nonce and absolute position -/
+def toyKsByte (k n : Bytes) (j : Nat) : UInt8 := UInt8.ofNat (le k + 3 * le n + 7 * j + 1)
+
+/-- a polynomial checksum in the odd base 257: its low 128 bits depend on every byte and on the length -/
+def toyChk : Bytes → Nat
+  | [] => 0
+  | b :: bs => b.toNat + 1 + 257 * toyChk bs
+
+def toyPrims : Prims where
+  ks := fun k n ic len => (List.range len).map (fun j => toyKsByte k n (64 * ic + j))
+  mac := fun k d => toLE 16 (le k + d.length + toyChk d)
+  hcore := fun i k => xorBytes k (i ++ i)
+
+theorem toyPrims_ks_len (k n : Bytes) (ic len : Nat) : (toyPrims.ks k n ic len).length = len := by
+  simp [toyPrims]
+
+theorem toyPrims_mac_len (k d : Bytes) : (toyPrims.mac k d).length = 16 := toLE_length _ _
+
+theorem toyPrims_ks_offset (k n : Bytes) (ic len : Nat) :
+    toyPrims.ks k n ic len = (toyPrims.ks k n 0 (64 * ic + len)).drop (64 * ic) := by
+  simp only [toyPrims, List.range_add, List.map_append, List.map_map]
+  rw [List.drop_left' (by simp)]
+  simp [Function.comp_def]
+
+theorem toyPrims_ks_prefix (k n : Bytes) (a b : Nat) :
+    (toyPrims.ks k n 0 (a + b)).take a = toyPrims.ks k n 0 a := by
+  simp only [toyPrims, List.range_add, List.map_append]
+  rw [List.take_left' (by simp)]
+
+theorem toyPrims_streamLaws : StreamLaws toyPrims :=
+  ⟨toyPrims_ks_len, toyPrims_ks_offset, toyPrims_ks_prefix⟩
+
 
 end Sodium
